@@ -26,6 +26,10 @@ def sentence(r, n=None, stop=None):
 SECTION_WORDS = ("Returns", "Parameters", "Raises", "Args", "Return", "Yields", "Attributes", "Kwargs")
 
 
+MIDLINE = ("and any extra kwargs: are forwarded untouched.", "with positional args: three of them.", "where ARGS: means all of them.",
+           "and it returns: nothing of note.", "see parameters: below.", "it raises: never.")
+
+
 def header(r, paragraphs=None, lead=None):
     """multi-paragraph header: summary + optional long description paragraphs; with `lead` about half of the lines
     start with one of those words (prose such as 'Returns the sum of the inputs')"""
@@ -36,6 +40,8 @@ def header(r, paragraphs=None, lead=None):
         lines = [sentence(r) for _ in range((2 if r.random() < 0.3 else 1) if i == 0 else r.randint(1, 3))]
         if lead:
             lines = ["%s %s" % (r.choice(lead), l[0].lower() + l[1:]) if r.random() < 0.5 else l for l in lines]
+            # the same words in another letter case, followed by a colon, in the middle of a sentence: prose, to every style
+            lines = ["%s %s" % (l.rstrip("."), r.choice(MIDLINE)) if r.random() < 0.25 else l for l in lines]
         paras.append("\n".join(lines))
     return "\n\n".join(paras)
 
